@@ -17,9 +17,9 @@ package packet
 //          read buffer with 00 / ff / a repetition of the seed body, header length
 //          set accordingly)
 //   grow   seed followed by trailing bytes up to the 4096 byte read buffer
-//   tiny   every body of 0, 1 or 2 bytes after a valid header of every type
+//   tiny   every body of 0, 1 or 2 bytes after a header of every type (header length real / type minimum / 4096)
 //   pair   (thorough) every pair of fields x reduced boundary set^2 x 2 paddings
-//   tiny3  (thorough) every 3 byte body after an OPEN / UPDATE header
+//   tiny3  (thorough) every 3 byte body after an UPDATE header announcing the minimum UPDATE length
 
 import (
 	"bytes"
@@ -835,7 +835,7 @@ func TestVerifC16(t *testing.T) {
 	defer r.Finish()
 	r.Rule("seeds (valid OPEN/UPDATE/NOTIFICATION/KEEPALIVE from the repo encoders and hand-written, every capability and attribute type) x " +
 		"{every offset x every byte value; every truncation (header length kept/corrected); every length/count/selector field x boundary set x 4 paddings up to 4096 bytes; " +
-		"trailing bytes up to 4096; thorough: every pair of fields x reduced boundary set^2 x 2 paddings} + every body of <= 2 bytes (thorough: 3 bytes for OPEN/UPDATE) after a header of every type; " +
+		"trailing bytes up to 4096; thorough: every pair of fields x reduced boundary set^2 x 2 paddings} + every body of <= 2 bytes after a header of every type x 3 header lengths (thorough: every 3 byte UPDATE body); " +
 		"each input x all 16 DecodeOptions; evaluation = one Decode call; non-trivial = the input has a valid header, so the body decoder runs")
 	r.Require("decode_ok", "decode_err", "decode_ok_open", "decode_ok_update", "decode_ok_notification", "decode_ok_keepalive", "mut_byte", "mut_trunc", "mut_field", "mut_grow", "mut_tiny", "ok_under_some_options_only")
 	x := &zvC16Ctx{r: r, opts: zvC16Opts(), cnt: map[string]int{}, outcomes: map[string]struct{}{}, wall: map[string]time.Duration{}}
@@ -979,19 +979,37 @@ func TestVerifC16(t *testing.T) {
 		}
 	}
 
-	// tiny bodies after a header of every type (0 and 5 are invalid types)
+	// tiny bodies after a header of every type (0 and 5 are invalid types); the header
+	// length is the real one, the minimum of the message type (RFC 4271 6.1) or 4096
+	tiny := func(typ int, body []byte, hv int) []byte {
+		in := zvC16Hdr(byte(typ), body)
+		switch hv {
+		case 1:
+			min := map[int]int{1: 29, 2: 23, 3: 21}[typ]
+			if min == 0 {
+				min = 19
+			}
+			in[16], in[17] = byte(min>>8), byte(min)
+		case 2:
+			in[16], in[17] = 0x10, 0
+		}
+		return in
+	}
+	hvName := []string{"real", "type minimum", "4096"}
 	for typ := 0; typ <= 5; typ++ {
 		for b0 := -1; b0 < 256; b0++ {
 			if !mine(fmt.Sprintf("tiny type=%d first=%d", typ, b0)) {
 				continue
 			}
-			if b0 < 0 {
-				x.input("-", "tiny", fmt.Sprintf("type %d, empty body", typ), zvC16Hdr(byte(typ), nil))
-				continue
-			}
-			x.input("-", "tiny", fmt.Sprintf("type %d, body %02x", typ, b0), zvC16Hdr(byte(typ), []byte{byte(b0)}))
-			for b1 := 0; b1 < 256; b1++ {
-				x.input("-", "tiny", fmt.Sprintf("type %d, body %02x%02x", typ, b0, b1), zvC16Hdr(byte(typ), []byte{byte(b0), byte(b1)}))
+			for hv := 0; hv < 3; hv++ {
+				if b0 < 0 {
+					x.input("-", "tiny", fmt.Sprintf("type %d, empty body, header length %s", typ, hvName[hv]), tiny(typ, nil, hv))
+					continue
+				}
+				x.input("-", "tiny", fmt.Sprintf("type %d, body %02x, header length %s", typ, b0, hvName[hv]), tiny(typ, []byte{byte(b0)}, hv))
+				for b1 := 0; b1 < 256; b1++ {
+					x.input("-", "tiny", fmt.Sprintf("type %d, body %02x%02x, header length %s", typ, b0, b1, hvName[hv]), tiny(typ, []byte{byte(b0), byte(b1)}, hv))
+				}
 			}
 		}
 	}
@@ -1028,17 +1046,15 @@ func TestVerifC16(t *testing.T) {
 		}
 	}
 
-	// tiny3: every 3 byte body after an OPEN / UPDATE header
-	for _, typ := range []int{1, 2} {
-		for b0 := 0; b0 < 256; b0++ {
-			for b1 := 0; b1 < 256; b1 += 16 {
-				if !mine(fmt.Sprintf("tiny3 type=%d %02x %02x..", typ, b0, b1)) {
-					continue
-				}
-				for b1b := b1; b1b < b1+16; b1b++ {
-					for b2 := 0; b2 < 256; b2++ {
-						x.input("-", "tiny3", fmt.Sprintf("type %d, body %02x%02x%02x", typ, b0, b1b, b2), zvC16Hdr(byte(typ), []byte{byte(b0), byte(b1b), byte(b2)}))
-					}
+	// tiny3: every 3 byte body after an UPDATE header that announces the minimum UPDATE length (23)
+	for b0 := 0; b0 < 256; b0++ {
+		for b1 := 0; b1 < 256; b1 += 16 {
+			if !mine(fmt.Sprintf("tiny3 %02x %02x..", b0, b1)) {
+				continue
+			}
+			for b1b := b1; b1b < b1+16; b1b++ {
+				for b2 := 0; b2 < 256; b2++ {
+					x.input("-", "tiny3", fmt.Sprintf("type 2, body %02x%02x%02x, header length type minimum", b0, b1b, b2), tiny(2, []byte{byte(b0), byte(b1b), byte(b2)}, 1))
 				}
 			}
 		}
